@@ -104,6 +104,12 @@ CHECKS['C10'] = ('restraints',
   'Trusts: TLC; decoding of optimiser arguments by exact coordinate match (all atoms at distinct lattice points; start and end have different shapes); restraint indices non-negative and in range; hydrogens are atoms named H<digits>.', 'DESIGN 3 C10')
 ENGINES['restraints'] = ('harness/drivers/restraints.py', 'Restraints.tla + MC_Restraints.tla (four modes) + Trace_Restraints.tla')
 
+CHECKS['C11'] = ('recognise',
+  'Recognise.tla: Abs = file-ordered list of the instances of the loaded species, Alg = the implementation (residue-kind stream with in-place consumption, first-occurrence search, greedy scan with block bookkeeping, sort by start, instance generation); TLC proves AlgIsAbs, ErrorIffAbsent, Tiling and ConsumedExactly for every file and loading order of the bounds and emits the expected list after each load, replayed on the real System built from files the harness writes; random files of up to 300 molecules validated by TLC against Trace_Recognise.tla',
+  'Exhaustive: every file of <= 4 (thorough 6) molecules over A (one residue), B (two different residues), C (the same residue kind twice), D (same residue name as A, other atom count) and an unloaded solvent, every permutation of every subset of the four topologies as loading order plus orders that load a species twice: 6.3e4 (1.6e6) behaviours; each replayed on the real System (quick: 30 000 sampled): after every add_ftop the molecules handed out (species, atom numbers = file positions, contiguous whole residues, atom names vs topology, coordinates vs file), the refusal with IOError exactly when no unconsumed instance exists with the list unchanged, and len / composition / System[i] for all i in -n..n-1 / IndexError outside / ten slices agreeing with the iteration. Random files: 2..6 species with 1..4 residues (repeated kinds, shared residue names with different atom counts), blocks and interleavings, unloaded species, repeated loads.',
+  'Trusts: TLC; the independent .gro/.itp writers of harness/synth.py and the atom-number decoding of the files the harness wrote; species have pairwise disjoint residue signatures, consecutive residues differ in residue number.', 'DESIGN 3 C11')
+ENGINES['recognise'] = ('harness/drivers/recognise.py', 'Recognise.tla + MC_Recognise.tla + Trace_Recognise.tla')
+
 PENDING_REASON = 'check not built yet in this round (build in progress; see DESIGN.md Appendix B)'
 
 
